@@ -559,7 +559,8 @@ def load_known_findings():
 
 TRANSLATED = {
     "C02": ["tr_important.py -> Gen/GenImportant.v (prefer_important, is_marked_important, remove_important)"],
-    "C04": ["tr_termination.py -> Gen/GenTermination.v (TerminationCheck)"],
+    "C04": ["tr_termination.py -> Gen/GenTermination.v (TerminationCheck)",
+            "tr_classify.py -> Gen/GenClassify.v (rc_classify and the shape of the branches of _generate_data_point / _eval_output)"],
     "C05": ["tr_regex.py -> Gen/GenRegex.v (every re.compile of rebench/interop, parsed with CPython's re._parser)"],
     "C06": ["tr_facts.py -> Gen/GenFactsPersist.v (header_iff_empty, persist_locked)"],
     "C07": ["tr_identity.py -> Gen/GenIdentity.v (as_dict / from_dict / __init__ / __eq__ of six identity classes)"],
